@@ -142,6 +142,8 @@ def rule_row_shape(ctx: Ctx, repo: Repo) -> None:
     tup = None
     if params and isinstance(params[0], R) and params[0].kind == "list" and len(params[0].fields["items"]) == 1:
         tup = params[0].fields["items"][0]
+    elif params and isinstance(params[0], R) and params[0].kind == "comp" and not params[0].fields["ifs"]:
+        tup = params[0].fields["elt"]
     if not ctx.check(isinstance(tup, K) and isinstance(tup.v, tuple) and len(tup.v) == len(target_cols), "R-C08.2", sc.fi.fq,
                      "each inserted row is a tuple with one value per column", construct=f"{tup}"):
         return
